@@ -13,11 +13,12 @@ def work(job):
         return docrun.engine_review(b, acts), None
     except Exception as e: return None, '%s: %s' % (type(e).__name__, e)
 
+INPUT_ISSUES = {}
 def small_docs(rng):
     """documents with 1-4 tracked changes, incl. an ins and a del sharing one id, multi-run marks, marks in cells/headers,
     deleted runs with several text nodes (tab/break inside), adjacent marks"""
     docs = []
-    for variant in range(14):
+    for variant in range(17):
         g = docgen.Gen(rng, 'full'); ns = []
         def run(t, f=None, dt=False): return ['run', g.fresh(), f, [['dt' if dt else 't', t]]]
         ns.append(run('Start '))
@@ -30,6 +31,10 @@ def small_docs(rng):
         if variant % 4 < 2: ns.append(['ins', g.fresh(), ['3', 'Carol', '2024-02-03T09:30:00Z'], [run('added')]])
         if variant % 5 == 0:
             ns += [['crs', '1'], ['ins', g.fresh(), ['4', 'Alice', '2024-02-03T09:30:00Z'], [run('noted ')]], ['cre', '1'], ['run', g.fresh(), None, [['ref', '1']]]]
+        if variant >= 14:      # another author's deletion nested inside a pending insertion (Word writes this when someone deletes part of it)
+            inner = [run('kept '), ['del', g.fresh(), ['7', 'Alice', '2024-02-03T09:30:00Z'], [run('dropped ', None, True)]], run('tail ')]
+            if variant == 16: inner = [run('a '), ['del', g.fresh(), ['7', 'Alice', '2024-02-03T09:30:00Z'], [run('b ', None, True), run('c ', [[1, 1]], True)]]]
+            ns.append(['ins', g.fresh(), ['6', 'Carol', '2024-02-03T09:30:00Z'], inner])
         ns.append(run(' end.'))
         g.pid += 1
         p = {'t': 'p', 'pid': g.pid, 'ppr': 0, 'style': ['N', False], 'nodes': ns}
@@ -118,7 +123,7 @@ def run(tier, seed):
         ap, sk, ob = res
         dout = A.read(ob, table=ins[di]['rpr_table'])
         tin = A.tape(norm[di]); tout = A.tape(dout)
-        issues = docrun.struct_issues(ob)
+        issues = [i for i in docrun.struct_issues(ob) if i not in INPUT_ISSUES.setdefault(di, set(docrun.struct_issues(blobs[di])))]      # (relative to the input: a nested mark Word wrote is not the action's doing)
         if issues: ck.violation('oracle', dict(case, issues=issues[:5]), 'output is not structurally valid: ' + issues[0]); continue
         if acts == 'ALL':
             kinds['accept_all'] += 1
@@ -170,7 +175,7 @@ def replay(path):
     din = A.read(b, table=list(d['rpr_table']))
     nd = A.un_doc(A.sx_parse(core.run_driver('normalize', [A.sx_doc(din)])[0]))
     dout = A.read(ob, table=din['rpr_table'])
-    issues = docrun.struct_issues(ob)
+    issues = [i for i in docrun.struct_issues(ob) if i not in set(docrun.struct_issues(b))]
     bad = bool(issues)
     if acts != 'ALL':
         rt, rap, rsk = ref_apply(A.tape(nd), acts)
